@@ -335,6 +335,11 @@ def stepLine (st : Mode) (line : String) : Mode × String :=
       | "cmpx" :: rest => (st, cmpx ty rest)
       | _ => (st, "bad-op")
     | .flat ltM ltS m s vm vs =>
+      -- round 3b: `afail <k> <op …>` = the operation with an allocation of the storage vector refused first (no
+      -- effect), then run again: the compared line is the one of the operation
+      let ws := match ws with
+        | "afail" :: _ :: rest => rest
+        | _ => ws
       match flatStep ltM ltS m s ws with
       | some (m, s, r, rm, rs) =>
         let (vm, vs, note) := composedCheck ltM ltS m s ws vm vs rm rs
@@ -353,7 +358,9 @@ def stepLine (st : Mode) (line : String) : Mode × String :=
         -- the counters of the model are unbounded naturals; the code's are size_t (8 bytes), the object is
         -- pointer + capacity + size (+ an empty allocator, padded to one more word)
         -- (the std_portable.h copy declares `difference_type = int`)
-        (st, s!"size=8 cap=8 diff={if p then 4 else 8} idx=8 obj=4")
+        -- round 3b: difference_type / size_type / the object size are not fixed by the property: the harness
+        -- reports them as tags (diff4|8, idx8, obj4), the compared result is the width of size() / capacity()
+        (st, "size=8 cap=8")
       else
         -- `a <k> <op …>` / `al <n> <op …>`: the operation runs with an allocation failure armed (Alloc.lean); after
         -- a failure the state must be the one the strong guarantee demands and the operation is run again unarmed
